@@ -614,6 +614,13 @@ func (d *Data) PutSpans(versionID dvid.VersionID, spans []dvid.Span, init bool) 
 	if err != nil {
 		return err
 	}
+	// Refuse a malformed request as a whole, before the stored ROI is touched.
+	for _, span := range spans {
+		if span[3] < span[2] {
+			return fmt.Errorf("Got weird span %v.  span[3] (X1) < span[2] (X0)", span)
+		}
+	}
+
 	d.StartUpdate()
 	defer d.StopUpdate()
 
@@ -655,9 +662,6 @@ func (d *Data) PutSpans(versionID dvid.VersionID, spans []dvid.Span, init bool) 
 		}
 		if span[0] > d.MaxZ {
 			d.MaxZ = span[0]
-		}
-		if span[3] < span[2] {
-			return fmt.Errorf("Got weird span %v.  span[3] (X1) < span[2] (X0)", span)
 		}
 		index := indexRLE{
 			start: dvid.IndexZYX{span[2], span[1], span[0]},
